@@ -1,7 +1,7 @@
 (* Proofs/C17Total.v — C17: which exceptions each stage of the parse chain can raise (for ALL strings), and the regions of the escapes. *)
 From Coq Require Import ZArith List Bool Lia.
 From PV Require Import Lib.PyBase Spec.Cal Spec.NativeDT Gen.AddDuration.
-From PV Require Import Model.C07Regex Gen.IsoRegex Gen.IsoPost Model.IsoParse Model.DurParse Model.ParseTotal.
+From PV Require Import Model.C07Regex Gen.IsoRegex Gen.IsoPost Model.IsoParse Model.DurParse Model.ParseTotal Proofs.C17Regex.
 Import ListNotations.
 Open Scope Z_scope.
 
@@ -113,36 +113,30 @@ Proof.
   destruct (rs_raw (c :: t)); intros E; inversion E; eauto.
 Qed.
 
-(* ------------------------------------------------------------------ _parse_common: TypeError exactly on the minute-absent region *)
-Lemma common_classes df s :
-  match common_parse_df df s with
-  | Raise E_TypeError => common_minute_absent s = true
-  | r => out_ok r
-  end.
+(* ------------------------------------------------------------------ _parse_common: a value or a ValueError, every string *)
+(* the minute group of COMMON is mandatory inside the time group (Proofs/C17Regex.v, on the generated AST): int(m.group("minute")) never sees None *)
+Lemma common_minute_absent_never s : common_minute_absent s = false.
 Proof.
-  unfold common_parse_df, common_minute_absent.
-  destruct (re_match COMMON_RE COMMON_NGROUPS (fold_str s)) as [c|]; [|exact I].
-  match goal with |- context [let '(a, b) := ?E in _] => destruct E as [month day] end.
-  destruct (has c G_COMMON_time); simpl.
-  - destruct (has c G_COMMON_minute); simpl; [|reflexivity].
-    destruct (has c G_COMMON_date).
-    + pose proof (mk_datetime_ve (int_of (gtext c G_COMMON_year)) month day (int_of (gtext c G_COMMON_hour)) (int_of (gtext c G_COMMON_minute))
-                   (if has c G_COMMON_second then int_of (gtext c G_COMMON_second) else 0)
-                   (if has c G_COMMON_subsecondsection then int_of (pad6r (firstn 6 (gtext c G_COMMON_subsecond))) else 0) None) as H.
-      destruct (mk_datetime _ _ _ _ _ _ _ _) as [|e]; [exact I|]. simpl in H. destruct H as [<-|[]]. exact I.
-    + pose proof (mk_time_ve (int_of (gtext c G_COMMON_hour)) (int_of (gtext c G_COMMON_minute))
-                   (if has c G_COMMON_second then int_of (gtext c G_COMMON_second) else 0)
-                   (if has c G_COMMON_subsecondsection then int_of (pad6r (firstn 6 (gtext c G_COMMON_subsecond))) else 0) None) as H.
-      destruct (mk_time _ _ _ _ _) as [|e]; [exact I|]. simpl in H. destruct H as [<-|[]]. exact I.
-  - pose proof (mk_date_ve (if has c G_COMMON_date then int_of (gtext c G_COMMON_year) else 0) month day) as H.
-    destruct (mk_date _ _ _) as [|e]; [exact I|]. simpl in H. destruct H as [<-|[]]. exact I.
+  unfold common_minute_absent. destruct (re_match COMMON_RE COMMON_NGROUPS (fold_str s)) as [c|] eqn:E; [|reflexivity].
+  destruct (has c G_COMMON_time) eqn:HT; [|reflexivity]. rewrite (common_time_has_minute _ _ E HT). reflexivity.
 Qed.
 
-Lemma common_exn df s : exn_in [E_ValueError; E_ParserError; E_TypeError] (common_parse_df df s).
+Lemma common_classes df s : exn_in [E_ValueError; E_ParserError] (common_parse_df df s).
 Proof.
-  pose proof (common_classes df s) as H. destruct (common_parse_df df s) as [|e]; [exact I|].
-  destruct e; simpl in *; auto 10; contradiction.
+  pose proof (common_minute_absent_never s) as NA. revert NA.
+  unfold common_parse_df, common_minute_absent.
+  destruct (re_match COMMON_RE COMMON_NGROUPS (fold_str s)) as [c|]; [|intros _; inl].
+  match goal with |- context [let '(a, b) := ?E in _] => destruct E as [month day] end.
+  destruct (has c G_COMMON_time); simpl.
+  - destruct (has c G_COMMON_minute); simpl; [intros _|discriminate].
+    destruct (has c G_COMMON_date).
+    + eapply exn_in_weaken; [|apply mk_datetime_ve]. intros e [<-|[]]; simpl; auto.
+    + eapply exn_in_weaken; [|apply mk_time_ve]. intros e [<-|[]]; simpl; auto.
+  - intros _. eapply exn_in_weaken; [|apply mk_date_ve]. intros e [<-|[]]; simpl; auto.
 Qed.
+
+Lemma common_total df s : out_ok (common_parse_df df s).
+Proof. apply exn_in_ve_ok, common_classes. Qed.
 
 (* the day_first=False instance is C07's common_parse on the folded text *)
 Lemma common_parse_df_false s : common_parse_df false s = common_parse (fold_str s).
@@ -325,8 +319,7 @@ Section Chain.
     match parse_full du true o s with
     | Ok _ => True
     | Raise E_ValueError | Raise E_ParserError => True
-    | Raise E_TypeError => common_minute_absent s = true \/ interval_nondt true s = true
-    | Raise E_AttributeError => interval_nondt true s = true
+    | Raise E_TypeError | Raise E_AttributeError => interval_nondt true s = true
     | Raise E_OverflowError => rs_duration_overflow s = true \/ (interval_ok true s = true /\ interval_nondt true s = false)
     | Raise _ => False
     end.
@@ -351,12 +344,12 @@ Section Chain.
         * pose proof (assemble_rs_dt o f F2 A) as H. destruct (assemble true o f) as [v|e]; [exact I|].
           simpl in H. destruct H as [<-|[<-|[]]]; [exact I|]. right; split; reflexivity.
         * pose proof (assemble_rs_nondt o f F2 A) as H. destruct (assemble true o f) as [v|e]; [exact I|].
-          simpl in H. destruct H as [<-|[<-|[]]]; [right|]; reflexivity.
+          simpl in H. destruct H as [<-|[<-|[]]]; reflexivity.
       + simpl in H2. assert (V : is_ve e2 = true) by (destruct H2 as [<-|[<-|[<-|[]]]]; reflexivity). rewrite V. cbn [negb].
         pose proof (common_classes (o_day_first o) s) as H3.
         destruct (common_parse_df (o_day_first o) s) as [p|e3].
         * cbn [bind]. destruct (finish_ip true o p) as [v ->]. exact I.
-        * destruct e3; try contradiction; cbn [bind]; auto.
+        * simpl in H3. destruct H3 as [<-|[<-|[]]]; cbn [bind]; [exact I|].
           destruct (o_strict o); [exact I|].
           pose proof (du_ok s (o_day_first o) (o_year_first o)) as D.
           destruct (du s (o_day_first o) (o_year_first o)) as [p|e4].
